@@ -249,7 +249,11 @@ pub fn ptype(req: &Value) -> Value {
     match purl::PackageType::from_str(&unhex(&req["s"])) {
         Ok(t) => {
             let s: &'static str = t.into();
-            json!({"ok": {"name": hx(t.name()), "display": hx(&t.to_string()), "as_ref": hx(t.as_ref()),
+            #[cfg(feature = "sd")]
+            let serde_name = serde_json::to_string(&t).ok().and_then(|j| serde_json::from_str::<String>(&j).ok()).map(|n| hx(&n));
+            #[cfg(not(feature = "sd"))]
+            let serde_name: Option<String> = None;
+            json!({"ok": {"serde": serde_name, "name": hx(t.name()), "display": hx(&t.to_string()), "as_ref": hx(t.as_ref()),
                           "into": hx(s), "package_type": hx(&t.package_type()), "debug": format!("{:?}", t)}})
         },
         Err(_) => json!({"err": "UnsupportedPackageType"}),
